@@ -450,7 +450,9 @@ class Exec(Engine):
                     for e, t in self.spec_conj(lc["invariant"], s, None, entry):
                         self.oblige(s, t, "inv.preserve", f"loop{k}.inv.preserve[{e[:50]}]", stmt.lineno)
                 elif s.flow == "break":
-                    raise OutOfSubset("break in while loop")
+                    s.flow = "normal"   # leaves the loop from inside an arbitrary iteration: continues after it
+                    s.trace.append(f"loop{k}:break")
+                    out.append(s)
                 else:
                     out.append(s)  # return / raise from inside the loop
         # 3. exit
@@ -538,7 +540,9 @@ class Exec(Engine):
                     for e, t in self.spec_conj(lc["invariant"], s, {"seen": seen2}, entry):
                         self.oblige(s, t, "inv.preserve", f"loop{k}.inv.preserve[{e[:50]}]", stmt.lineno)
                 elif s.flow == "break":
-                    raise OutOfSubset("break in for loop over symbolic collection")
+                    s.flow = "normal"   # leaves the loop from inside an arbitrary iteration: continues after it
+                    s.trace.append(f"loop{k}:break")
+                    out.append(s)
                 else:
                     out.append(s)
         # exit: everything seen
@@ -597,6 +601,7 @@ class Exec(Engine):
         concl = zand(*[t for _, t in self.spec_conj(lem.ensures, ls)])
         st.assume(z3.Implies(hyp, concl))
         self.used_lemmas = getattr(self, "used_lemmas", []) + [lem.key]
+        self.callees.add(lem.key)
 
     # ------------------------------------------------------------------ function level
     def case_valuations(self):
